@@ -269,7 +269,15 @@ func c19RunPS(ctx *Ctx, nregs int, ops []c19PSOp, judge bool, tag string) {
 		}
 		impl = strings.Join(append(append(outs, "|"), finals...), " ")
 	} else if judge {
-		fail("pathset-no-panic", "panic", "a PathSet call panicked: "+why, "panic")
+		sig := "panic"
+		for _, o := range ops {
+			for _, st := range o.p {
+				if is, ok := st.(cty.IndexStep); ok && is.Key.IsMarked() {
+					sig = "marked-key"
+				}
+			}
+		}
+		fail("pathset-no-panic", sig, "a PathSet call panicked: "+why, "panic")
 	}
 	args := append([]string{fmt.Sprint(nregs)}, wires...)
 	ctx.Add("pathset.run", impl, args...)
@@ -368,6 +376,9 @@ func runC19PathSet(ctx *Ctx) {
 		}
 		ctx.Add("pathset.hash", fmt.Sprint(int(h.Sum64())), encPath(p))
 	}
+	// index keys that carry marks: comparing two such paths panics (known finding)
+	mk := func(i int64) cty.Path { return cty.IndexPath(cty.NumberIntVal(i).Mark("m1")) }
+	c19RunPS(ctx, 1, []c19PSOp{{k: "add", p: mk(1)}, {k: "add", p: mk(2)}, {k: "list"}}, true, "marked-keys")
 	nHist := ctx.N(600, 20000)
 	for i := 0; i < nHist; i++ {
 		nregs := 2 + ctx.R.Intn(3)
